@@ -26,7 +26,7 @@ CHECKS = {
         design="6 C04"),
     "C03": dict(
         level="model_checking",
-        technique="TLA+ spec Frames (declarative Lerp/latest-frame + operational incremental algorithm with file switching) model-checked with TLC (MC_Frames); exact lattice trace validation of the real TimeKeeper+Grid+Forcing (ForceTrace)",
+        technique="TLA+ spec Frames (declarative Lerp/latest-frame + operational incremental algorithm with file switching) model-checked with TLC (MC_Frames); exact lattice trace validation of the real TimeKeeper+Grid+Forcing (ForceTrace) on random layouts and on every small layout enumerated by TLC on the model (GEN_Frames, spec -> code)",
         text="TLC checks that the incremental algorithm (pre-roll, hand-over, scalars, read-ahead, increment, file switch) keeps the field equal to the linear interpolation of the bracketing frames at frac 0, 1/2, 1 and the scalar equal to the latest frame, and that every read hits an existing frame of the right file, for every frame layout/partition/offset/run length/direction in the bound; thousands of generated forcing file sets are run through the real Forcing and velocity(0|1/2|1), variables[u|v] and scalar forcing at every step are validated by TLC with integer equality.",
         note="Frames on the model time grid; node values chosen so float32 arithmetic is exact. Trusted: netCDF4 writing of the inputs, TLC.",
         design="6 C03"),
